@@ -1,5 +1,6 @@
 import NurbsVerif.Model.Basis
 import NurbsVerif.Model.Layout
+import NurbsVerif.Model.LayoutRat
 import NurbsVerif.Driver.Parse
 /- handlers for the control-net layout ops (C13).  Points are coordinate lists (homogeneous for
    rational shapes), knot vectors are lists of rationals.
@@ -62,6 +63,9 @@ def volOk (v : VolR) : Bool :=
     && decide (v.dw + 1 ≤ v.sw) && decide (1 ≤ v.du) && decide (1 ≤ v.dv) && decide (1 ≤ v.dw)
 def layoutRectOk (G : List (List Pt)) : Bool :=
   !G.isEmpty && decide (1 ≤ (G.headD []).length) && G.all (fun r => r.length == (G.headD []).length)
+
+/-- every homogeneous point has a last coordinate and it is not zero (else `separate_ctrlpts_weights` raises) -/
+def homOkB (P : List Pt) : Bool := P.all fun p => !p.isEmpty && p.getLastD 0 != 0
 
 def showOptPt : Option Pt → String
   | some p => showList p
@@ -176,6 +180,40 @@ def handleLayout : List String → Option String
       if (S.pts.headD []).length < (if rat == "1" then 4 else 3) then return "ERR"
       let tr : Pt → Pt := if rat == "1" then pointTranslateW vec else pointTranslate vec
       match sweepSurface tr (knotGenerate 1 2 true tolMult) S with
+      | some V => return showVol V
+      | none => return "ERR"
+  -- the same routines on rational shapes with the ctrlpts / weights split-and-recombine written out (Model/LayoutRat.lean)
+  | "consurfr" :: d :: deg :: kv :: rest => do
+      let deg ← deg.toNat?; let kv ← parseList kv
+      let cs ← (chunks 3 rest.length rest).mapM parseCrv
+      if !(cs.all fun c => homOkB c.pts) then return "ERR"
+      match parseDir d with
+      | none => return "ERR"
+      | some d =>
+        match constructSurfaceRat d deg kv cs with
+        | some S => if srfOk S && decide (S.ku.length = S.su + S.du + 1) then return showSrf S else return "ERR"
+        | none => return "ERR"
+  | "convolr" :: d :: deg :: kv :: rest => do
+      let deg ← deg.toNat?; let kv ← parseList kv
+      let ss ← (chunks 7 rest.length rest).mapM parseSrf
+      if !(ss.all fun s => homOkB s.pts) then return "ERR"
+      match parseDir d with
+      | none => return "ERR"
+      | some d =>
+        match constructVolumeRat d deg kv ss with
+        | some V => if volOk V then return showVol V else return "ERR"
+        | none => return "ERR"
+  | ["sweepcr", deg, us, ps, vec] => do
+      let deg ← deg.toNat?; let U ← parseList us; let P ← parsePts ps; let vec ← parseList vec
+      if vec.isEmpty ∨ P.isEmpty ∨ !homOkB P then return "ERR"
+      match sweepCurveRat vec (knotGenerate 1 2 true tolMult) { deg := deg, kv := U, pts := P } with
+      | some S => return showSrf S
+      | none => return "ERR"
+  | "sweepsr" :: vec :: rest => do
+      let vec ← parseList vec; let S ← parseSrf rest
+      if vec.isEmpty ∨ !srfOk S ∨ !homOkB S.pts then return "ERR"
+      if (S.pts.headD []).length < 4 then return "ERR"
+      match sweepSurfaceRat vec (knotGenerate 1 2 true tolMult) S with
       | some V => return showVol V
       | none => return "ERR"
   | _ => none
